@@ -207,7 +207,8 @@ def expand_dom(d):
     if isinstance(d, S.Record):
         names = list(d.fields)
         parts = [expand_dom(d.fields[n]) for n in names]
-        return [S.Record(d.cls, dict(zip(names, c)), build=d.build) for c in itertools.product(*parts)]
+        return [S.Record(d.cls, dict(zip(names, c)), build=d.build, closed=getattr(d, 'closed', False))
+                for c in itertools.product(*parts)]
     if isinstance(d, (S.Namespace, S.DictOf)):
         names = list(d.fields)
         parts = [expand_dom(d.fields[n]) for n in names]
@@ -325,6 +326,8 @@ def build_value(world, dom, name):
         obj = SObj(cls, fields)
         if cls.ntfields is None:
             obj.partial = True
+        if getattr(dom, 'closed', False):
+            obj.closed = True
         bname = dom.build.__module__ + ':' + dom.build.__name__ if dom.build else None
         return obj, Decoder(lambda m: {'$record': dom.cls, 'build': bname,
                                        'fields': {k: d(m) for k, d in decs.items()}})
@@ -653,6 +656,7 @@ class Verifier:
         self.scenario_label = ''
         self.path_id = 0
         self.loop_invariants = {}
+        self.frame_breaches = []
 
     def register(self, contracts):
         for c in contracts:
@@ -1013,6 +1017,7 @@ class Verifier:
             call_args, call_kwargs = self.bind_for_call(c, closure, names, args)
             self.in_body = True
             self.entered = False
+            self.frame_breaches = []
             try:
                 target = closure
                 if c.closure_env is not None:
@@ -1036,6 +1041,9 @@ class Verifier:
                 return 'loop-iteration', list(self.records)
             finally:
                 self.in_body = False
+            if any(isinstance(d_, S.Record) and getattr(d_, 'closed', False) for d_ in scen.values()):
+                self.oblige(f'{c.name}/frame:only-thread-local-state-written', 'frame', not self.frame_breaches,
+                            detail='; '.join(self.frame_breaches))
             if outcome[0] == 'return':
                 for i, e in enumerate(c.ensures):
                     nm = f'{c.name}/post#{i}:{e.__name__}'
